@@ -157,6 +157,7 @@ func (_this *Reader) ReadDate() compact_time.Time {
 	if err != nil {
 		_this.unexpectedError(err)
 	}
+	_this.validateTime(&value)
 
 	return value
 }
@@ -166,6 +167,7 @@ func (_this *Reader) ReadTime() compact_time.Time {
 	if err != nil {
 		_this.unexpectedError(err)
 	}
+	_this.validateTime(&value)
 
 	return value
 }
@@ -175,8 +177,20 @@ func (_this *Reader) ReadTimestamp() compact_time.Time {
 	if err != nil {
 		_this.unexpectedError(err)
 	}
+	_this.validateTime(&value)
 
 	return value
+}
+
+// Time fields are bit-packed with room for out-of-range values (month 15, hour 31, ...); reject those here because
+// nothing downstream does, and the text format cannot express them.
+func (_this *Reader) validateTime(value *compact_time.Time) {
+	if value.IsZeroValue() {
+		return
+	}
+	if err := value.Validate(); err != nil {
+		_this.errorf("invalid time: %v", err)
+	}
 }
 
 func (_this *Reader) ReadArrayChunkHeader() (elementCount uint64, moreChunksFollow bool) {
